@@ -221,6 +221,29 @@ func (h *hist) c07Check() {
 			h.res.Verdict, h.res.Msg = "inconclusive", err.Error()
 			return
 		}
+		prefixDone := false
+		if j > 0 && j < R && j%2 == 1 {
+			// the index of the prefix was built by an earlier run that used another record size (`-z`): positions are split differently
+			oc := h.cfg
+			oc.RS = map[bool]int{true: h.cfg.RS * 2, false: h.cfg.RS/2 + 1}[h.cfg.RS <= 32]
+			if oc.RS == h.cfg.RS {
+				oc.RS++
+			}
+			org, err := NewRig(d, oc)
+			if err != nil {
+				h.res.Verdict, h.res.Msg = "inconclusive", "rig: "+err.Error()
+				return
+			}
+			ierr := runIndex(org, true)
+			org.Close()
+			if ierr != nil {
+				h.res.count("prefix_index_errors", 1) // C06's subject
+				os.RemoveAll(d)
+				continue
+			}
+			prefixDone = true
+			h.res.count("prefix_indexes_built_with_other_record_size", 1)
+		}
 		rg, err := NewRig(d, h.cfg)
 		if err != nil {
 			h.res.Verdict, h.res.Msg = "inconclusive", "rig: "+err.Error()
@@ -229,7 +252,7 @@ func (h *hist) c07Check() {
 		func() {
 			defer rg.Close()
 			defer os.RemoveAll(d)
-			if j > 0 && j < R {
+			if j > 0 && j < R && !prefixDone {
 				if err := runIndex(rg, true); err != nil {
 					h.res.count("prefix_index_errors", 1) // C06's subject
 					return
